@@ -3,10 +3,14 @@
    natives; nat, positive, N, Z stay the extracted inductives. *)
 Require Extraction.
 Require Import ExtrOcamlBasic.
-From GTS Require Import Base Arith Tables Pars Origin.
+From GTS Require Import Base Arith Tables Pars Origin Loc Seq.
 Extraction Blacklist String List Nat.
 Extraction "model.ml"
   go_toOriginLength go_fromOriginLength go_Abs go_Compare go_Min go_Max
   go_rangeCompare go_rangeWithin go_rangeOverlap go_isLeapYear
   new_origin origin_bytes origin_len validate_origin slow_origin_parser
-  origin_block_parser run st_of.
+  origin_block_parser run st_of
+  shift expand reverse normalize join order complement show loc_less loc_within
+  loc_overlap loc_region den region_den check_strand as_complete loc_len
+  fs_insert seq_insert seq_embed seq_delete seq_erase seq_slice seq_rotate
+  seq_reverse seq_complement seq_transcribe seq_concat locate region_complement.
